@@ -7,6 +7,7 @@ CONSTANT ReqSets <- RS3
 CONSTANT MaxWrites = 6
 CONSTANT PutSets <- PS5
 CONSTANT ConfSets <- CS2
+CONSTANT CoalSets <- PS5
 CONSTANT Lims = {0}
 SPECIFICATION SimSpec
 INVARIANT BehaviourExport
